@@ -91,7 +91,7 @@ func TestC16(t *testing.T) {
 	r.Assume("time is virtual (testing/synctest); the scripted service honours the request context",
 		"a lookup flight 'fails' iff its service request returned an error; a caller returning an error while its own context is alive must be explained by a real (non-context) failure of a request that overlapped its call",
 		"the five-minute limit is checked per caller without deadline, from that caller's own call, with 1 s of slack")
-	n := r.N(3000, 60000)
+	n := r.N(15000, 200000)
 	for i := 0; i < n; i++ {
 		if r.Skip(i) {
 			continue
@@ -462,7 +462,7 @@ func applyVia(ctx context.Context, st *setec.Store, name string, out *string) er
 // stress runs concurrent lookups with random cancellations in real time; the
 // race detector (when the check is built with -race) observes it.
 func stress(t *testing.T, r *evid.Run) {
-	reps := r.N(20, 400)
+	reps := r.N(60, 600)
 	for rep := 0; rep < reps; rep++ {
 		rng := r.Rand(uint64(1_000_000 + rep))
 		svc := fakesvc.New()
